@@ -271,7 +271,7 @@ func TestC10(t *testing.T) {
 		}
 	}
 	s.exec(t, "eq", c10Case{Op: "perm", Mode: int(eng.ModePlain), In: []string{"0", "1", "2", "3"}}, "perm/kat")
-	rapidCheck(t, "eq", tierN(6000, 120000), func(rt *rapid.T) {
+	rapidCheck(t, "eq", tierN(18000, 120000), func(rt *rapid.T) {
 		op := rapid.SampledFrom([]string{"perm", "hashnopad", "hashnopad", "hashornoop", "hashornoop", "twotoone", "tovec"}).Draw(rt, "op")
 		var in []*big.Int
 		switch op {
@@ -301,7 +301,7 @@ func TestC10(t *testing.T) {
 		}
 		s.exec(rt, "eq", c10Case{Op: op, Mode: int(genMode().Draw(rt, "mode")), In: strs(in)}, class)
 	})
-	rapidCheck(t, "prefixes", tierN(600, 15000), func(rt *rapid.T) {
+	rapidCheck(t, "prefixes", tierN(1800, 15000), func(rt *rapid.T) {
 		op := rapid.SampledFrom([]string{"hashnopad", "hashornoop"}).Draw(rt, "op")
 		n := rapid.IntRange(2, 24).Draw(rt, "len")
 		var in []*big.Int
@@ -319,7 +319,7 @@ func TestC10(t *testing.T) {
 		}
 		s.exec(rt, "prefixes", c10Case{Op: op, Mode: int(genMode().Draw(rt, "mode")), In: strs(in), Lens: lens}, op+"/prefixes-of-one-vector")
 	})
-	rapidCheck(t, "inj", tierN(2000, 50000), func(rt *rapid.T) {
+	rapidCheck(t, "inj", tierN(6000, 50000), func(rt *rapid.T) {
 		if rapid.Bool().Draw(rt, "chunks") {
 			h1 := genHashVal().Draw(rt, "h1")
 			h2 := genHashVal().Draw(rt, "h2")
